@@ -2,21 +2,31 @@
 from __future__ import annotations
 
 import math
+import os
 from fractions import Fraction
 
 from ..core import frac
 
 LEVEL = "proof"
-RULE = ("references (pooled or flat, +- gc / rmask columns, bad bins anywhere: log2 beyond +-5, spread > 1, depth 0, gc "
-        "outside 0.3-0.7) over 1..4 chromosomes with interleaved target (100-400 bp) and antitarget (5-20 kb) bins; "
-        "samples over all or ~90% of the bins, empty antitargets, every subset of {gc, edge, rmask}, sample rows in "
-        "genomic or shuffled order, plus malformed inputs (bin missing from the reference, duplicated coordinates); "
-        "each case is also re-run with permuted input rows and with a depth scale factor; one case in five goes through the "
-        "command line (`cnvkit.py fix` on written .cnn files, --no-gc/--no-edge/--no-rmask), result read back from the .cnr. non-trivial = a bad bin "
-        "was dropped or a correction was applied or rows were shuffled; distinct by hash")
+RULE = ("references: pooled, flat, built from a single sample (real log2, spread 0) or whole-number log2 with a spread; +- gc / rmask "
+        "columns (rmask with many ties at 0), +- depth column, +- the extra columns of a clustered reference, columns in any order, gene "
+        "names that differ from the sample's; bad bins anywhere (log2 beyond +-5, spread > 1, depth 0, gc outside 0.3-0.7, values on "
+        "the limits; sometimes every bin of a class); 1..5 chromosomes from six naming schemes (chr-prefixed or bare, chr2/chr10/chr11 "
+        "so that natural and lexicographic order differ, X, Y, M, an unplaced contig, sex chromosomes only) with interleaved target "
+        "(100-500 bp, abutting, apart or overlapping) and antitarget (5-20 kb, named Antitarget or Background) bins; samples over all or "
+        "~90% of the bins, with no / a few / mostly zero-coverage bins in a class, empty antitargets (3%: empty targets), +- a Picard-style gc column, "
+        "tables built directly or as filtered subsets (pandas index not 0..n-1), rows in genomic or shuffled order; every subset of "
+        "{gc, edge, rmask} given by keyword, positionally or left to the defaults; diploid_parx_genome (15%) and "
+        "smoothing_window_fraction (12%, fractions and whole widths); every malformed input once per run (sample bin whose start / end / "
+        "chromosome is not in the reference, in the target or the antitarget table; duplicated coordinates in either sample table or in "
+        "the reference) plus ~10% at random; each case is also re-run with permuted input rows and with a depth scale factor; one case "
+        "in five goes through the command line (`cnvkit.py fix` on written .cnn files, --no-gc/--no-edge/--no-rmask, "
+        "--diploid-parx-genome, --smoothing-window-fraction, -i, with -o or the default <sample>.cnr in the working directory, empty "
+        "antitargets as a header-only or a zero-byte file), result read back from the .cnr. non-trivial = a bad bin was dropped or a "
+        "correction was applied or rows were shuffled; distinct by hash")
 EXHAUSTIVE = {"quick": False, "thorough": False}
 ASSUMPTIONS = ["third-party numerics enter as parameters computed by the same library calls: numpy's seeded permutation "
-               "(seed 0xA5EED), the rolling-median half-window (_width2wing of max(0.01, n**-0.5)), numpy sqrt of bin sizes, "
+               "(seed 0xA5EED), the rolling-median half-window (_width2wing of the given smoothing_window_fraction, by default max(0.01, n**-0.5)), numpy sqrt of bin sizes, "
                "and the two squared biweight midvariances of the residuals (C19's subject)",
                "float evaluation of the edge-bias formulas may order two nearly equal keys differently from exact "
                "arithmetic (not observed; would show up as a disagreement, not a violation)"]
@@ -24,37 +34,80 @@ TRUSTED_EXTRA = ["numpy.random.permutation (MT19937) under a fixed seed", "panda
 SC = ["chromosome", "start", "end", "gene", "log2", "depth"]
 
 
-def _case(rng, big=False):
-    chroms = ["chr1", "chr2", "chr3", "chrX"][: rng.randint(1, 4)]
+# chromosome name sets: the natural order (chr2 < chr10 < chrX < chrY < chrM) differs from the lexicographic one in
+# all but the first; names with and without the "chr" prefix; tables without any autosome (centring then uses
+# every chromosome); an unplaced contig (never an autosome)
+NAMINGS = [["chr1", "chr2", "chr3", "chrX"],
+           ["chr1", "chr2", "chr10", "chrX", "chrY"],
+           ["1", "2", "10", "X", "Y"],
+           ["chr2", "chr11", "chrX", "chrY", "chrM"],
+           ["chr9", "chr10", "chr1_gl000191_random", "chrX"],
+           ["chrX", "chrY"]]
+
+
+def _case(rng, big=False, force=None):
+    naming = rng.choice(NAMINGS) if rng.random() < 0.6 else NAMINGS[0]
+    if naming is NAMINGS[0]:
+        chroms = naming[: rng.randint(1, 4)]
+    else:
+        chroms = [c for c in naming if rng.random() < 0.75] or [naming[0]]
+        rng.shuffle(chroms)  # order of first appearance in the reference table is arbitrary as well
+    xname = "chrX" if chroms[0].startswith("chr") else "X"
     withgc, withrm = rng.random() < 0.6, rng.random() < 0.5
-    flat = rng.random() < 0.2
+    # reference kind: pooled; flat (log2 0 / -1, spread 0); built from a single sample (real log2, spread 0);
+    # whole-number log2 with a spread (the other mixed cell of the pooled-or-flat test in apply_weights)
+    kind = rng.choice(["pooled"] * 13 + ["flat"] * 4 + ["single"] * 2 + ["intlog2"])
+    antiname = "Background" if rng.random() < 0.15 else "Antitarget"
+    overlap = rng.random() < 0.15  # neighbouring bins may overlap (negative gap in the edge-bias formula)
+    rmzero = rng.random() < 0.4    # many bins without repeats: ties in the rmask sort key
     ref = []
     for c in chroms:
-        pos = rng.randint(0, 5000)
+        pos = rng.randint(0, 5000) if rng.random() < 0.8 else rng.randint(40000, 70000)
         for i in range(rng.randint(4, 25) if not big else rng.randint(30, 120)):
             anti = rng.random() < 0.4
             sz = rng.randint(5000, 20000) if anti else rng.choice([rng.randint(100, 400), 120, 250, 500])
-            if flat:
-                lg = -1.0 if c == "chrX" and rng.random() < 0.5 else 0.0
+            if kind == "flat":
+                lg = -1.0 if c == xname and rng.random() < 0.5 else 0.0
                 sp = 0.0
                 dp = 1.0
             else:
-                lg = rng.gauss(0, .5)
+                lg = rng.gauss(0, .5) if kind != "intlog2" else float(rng.choice([-1, 0, 0, 1]))
                 if rng.random() < .05:
                     lg = rng.choice([-6.0, 5.5, -5.0, 5.0])
-                sp = rng.choice([0.05, 0.2, 0.9, 1.0, 1.2, rng.uniform(0, 1)])
+                sp = 0.0 if kind == "single" else rng.choice([0.05, 0.2, 0.9, 1.0, 1.2, rng.uniform(0, 1)])
                 dp = 2 ** lg if rng.random() > .03 else 0.0
             gc = rng.choice([rng.uniform(.25, .75), 0.3, 0.7, rng.uniform(.31, .69)]) if withgc else None
-            rm = rng.uniform(0, 1) if withrm else None
-            ref.append([c, pos, pos + sz, "Antitarget" if anti else "G%d" % (i // 4), lg, dp, gc, rm, sp])
-            pos += sz + rng.choice([0, 0, rng.randint(1, 200), rng.randint(200, 3000)])
-    keep = [r for r in ref if rng.random() < .9]
+            rm = (0.0 if rmzero and rng.random() < 0.6 else rng.uniform(0, 1)) if withrm else None
+            ref.append([c, pos, pos + sz, antiname if anti else "G%d" % (i // 4), lg, dp, gc, rm, sp])
+            gap = rng.choice([0, 0, rng.randint(1, 200), rng.randint(200, 3000)])
+            if overlap and not anti and rng.random() < 0.4:
+                gap = -rng.randint(1, sz - 1)
+            pos += sz + gap
+    if rng.random() < 0.12:
+        # every bin of one class is bad in the reference (the class comes out empty although its table is not)
+        cls = rng.random() < 0.7
+        for r in ref:
+            if (r[3] == antiname) == cls:
+                r[8] = 1.5
+    keep = [r for r in ref if rng.random() < .9] if rng.random() < 0.8 else list(ref)
+    # zero-coverage bins: none / a few / most of one class (amplicon data under a hybrid-capture design, wrong BED)
+    nullmode = rng.choice(["none"] * 4 + ["few"] * 4 + ["anti", "tgt"])
     samp = []
     for r in keep:
-        lg = rng.gauss(3, .6) if rng.random() > .05 else -20.0
+        p0 = {"none": 0.0, "few": 0.05, "anti": 0.75 if r[3] == antiname else 0.02,
+              "tgt": 0.65 if r[3] != antiname else 0.02}[nullmode]
+        lg = rng.gauss(3, .6) if rng.random() >= p0 else -20.0
         samp.append([r[0], r[1], r[2], r[3], lg, (2 ** lg if lg > -20 else 0.0)])
-    tgt = [r for r in samp if r[3] != "Antitarget"]
-    anti = [r for r in samp if r[3] == "Antitarget"] if rng.random() < .8 else []
+    tgt = [r for r in samp if r[3] != antiname]
+    anti = [r for r in samp if r[3] == antiname] if rng.random() < .8 or (force and force[1] == "anti") else []
+    if force and force[1].startswith("cli-noanti"):
+        anti = []
+    if not force and anti and rng.random() < 0.03:
+        tgt = []  # the mirror case (only off-target bins): same code path as empty antitargets, in the other slot
+    if rng.random() < 0.1:
+        # the reference was annotated differently from the sample (gene names are not part of the key)
+        other = rng.choice(["Background" if antiname == "Antitarget" else "Antitarget", "-"])
+        ref = [r[:3] + [other if r[3] == antiname else "R" + r[3]] + r[4:] for r in ref]
     shuffled = rng.random() < 0.5
     if shuffled:
         rng.shuffle(tgt)
@@ -64,60 +117,142 @@ def _case(rng, big=False):
     corr = rng.choice([(False, False, False), (True, True, True), (True, False, False), (False, True, False),
                        (False, False, True), (True, True, False), (True, False, True), (False, True, True)])
     bad = None
+    # malformed inputs: `force` = (kind, table, how) fixes the cell (gen_cases asks for every one of them once)
     k = rng.random()
-    if k < 0.04 and tgt:
-        bad = "missing"
-        t = list(tgt[0])
-        t[1] += 1
-        tgt = [t] + tgt[1:]
-    elif k < 0.07 and len(tgt) > 1:
+    kind_bad, which, how = (force if force and force[0] else None) or (("missing" if k < 0.04 else "dup_sample" if k < 0.07 else "dup_ref" if k < 0.10 else None),
+                                     "anti" if rng.random() < 0.35 else "tgt", rng.choice(["start", "end", "chrom"]))
+    tab = anti if which == "anti" and len(anti) > 1 else tgt
+    if kind_bad == "missing" and tab:
+        # a sample bin that is not in the reference: start, end or chromosome differs; in either table
+        j = rng.randrange(len(tab))
+        t = list(tab[j])
+        if how == "start":
+            t[1] += 1
+        elif how == "end":
+            t[2] += 1
+        else:
+            # another chromosome of the design, or one the reference does not have at all
+            t[0] = rng.choice([c for c in chroms if c != t[0]] or [t[0] + "_alt"]) if rng.random() < 0.5 else t[0] + "_alt"
+        if (t[0], t[1], t[2]) not in {(r[0], r[1], r[2]) for r in ref}:
+            bad = "missing"
+            tab[j] = t
+    elif kind_bad == "dup_sample" and len(tab) > 1:
         bad = "dup_sample"
-        tgt = tgt + [list(tgt[0])]
-    elif k < 0.10 and len(ref) > 1:
+        tab.insert(rng.randrange(len(tab) + 1), list(tab[rng.randrange(len(tab))]))
+    elif kind_bad == "dup_ref" and len(ref) > 1:
         bad = "dup_ref"
-        ref = ref + [list(ref[0])]
+        ref = ref + [list(ref[rng.randrange(len(ref))])]
+    elif kind_bad == "dup_cross" and tgt and anti:
+        bad = "dup_cross"
+        t = tgt[rng.randrange(len(tgt))]
+        anti.insert(rng.randrange(len(anti) + 1), t[:3] + [rng.choice([antiname, t[3]])] + t[4:])
     cli = rng.random() < 0.2
+    # options beyond the three switches
+    par = rng.choice(["grch38", "grch37", "GRCh38"]) if rng.random() < 0.15 else None
+    swf = rng.choice([0.1, 0.25, 0.5, 0.9, 3.0, 5.0, 11.0]) if rng.random() < 0.12 else None
+    # representation of the inputs (see _cna / _ref / _fix_cli)
+    rep = {"sub": rng.randint(1, 10 ** 6) if rng.random() < 0.35 else None,   # tables are filtered subsets: index != 0..n-1
+           "samp_gc": rng.random() < 0.12,                                    # Picard-style coverage tables with a gc column
+           "ref_nodepth": rng.random() < 0.08,                                # reference without a depth column
+           "ref_extra": rng.random() < 0.12,                                  # clustered reference columns (unused without --cluster)
+           "ref_cols": rng.randint(1, 10 ** 6) if rng.random() < 0.2 else None,  # reference columns in another order
+           "call": rng.choice(["kw", "kw", "pos", "implicit"]),              # keywords / positional / defaults left out
+           "cli_no_o": rng.random() < 0.3, "cli_sid": rng.random() < 0.3, "cli_empty_file": rng.random() < 0.5}
+    if force and force[1].startswith("cli-noanti"):
+        cli, rep["cli_empty_file"] = True, force[1].endswith("0byte")
     if cli:
         # the .cnn files carry 6 significant digits: use inputs that survive the round trip exactly
         r6 = lambda v: v if v is None else float("%.6g" % v)
         ref = [r[:4] + [r6(v) for v in r[4:]] for r in ref]
         tgt = [r[:4] + [r6(v) for v in r[4:]] for r in tgt]
         anti = [r[:4] + [r6(v) for v in r[4:]] for r in anti]
-    return {"op": "fix", "tag": ("cli-" if cli else "") + ("shuffled-" if shuffled else "sorted-") + ("flat" if flat else "pooled") + ("-" + bad if bad else ""),
+    return {"op": "fix", "tag": ("cli-" if cli else "") + ("shuffled-" if shuffled else "sorted-") + kind + ("-" + bad if bad else ""),
             "in": {"tgt_f": tgt, "anti_f": anti, "ref_f": ref, "do_gc": corr[0], "do_edge": corr[1], "do_rmask": corr[2],
-                   "par": None, "shuffled": shuffled, "scale": rng.choice([1.0, 2.0, -3.5, 0.37]), "pseed": rng.randint(0, 10 ** 6), "cli": cli}}
+                   "par": par, "swf": swf, "rep": rep, "bad": bad,
+                   "shuffled": shuffled, "scale": rng.choice([1.0, 2.0, -3.5, 0.37]), "pseed": rng.randint(0, 10 ** 6), "cli": cli}}
+
+
+# a bin present in BOTH sample tables (e.g. the target coverage file named twice) is accepted and emitted twice:
+# /verif/proposed_fixes/C04-cross-table-duplicate.md.  Not generated until the repair is in /repo (C04_CROSS_DUP=1).
+CROSS_DUP = True   # finding BA fixed in /repo (9c896b5): generated
+FORCED = ([("missing", w, h) for w in ("tgt", "anti") for h in ("start", "end", "chrom")] +
+          [("dup_sample", "tgt", ""), ("dup_sample", "anti", ""), ("dup_ref", "", "")] +
+          # and, well-formed, the command line with empty antitargets given as a header-only / a zero-byte file
+          [(None, "cli-noanti-header", ""), (None, "cli-noanti-0byte", "")])
 
 
 def gen_cases(rng, tier):
-    n = {"quick": 160, "thorough": 1600, "search": 300}[tier]
-    return [_case(rng, big=(k % 4 == 0)) for k in range(n)]
+    n = {"quick": 150, "thorough": 1600, "search": 300}[tier]
+    # every forced cell once (twice in the thorough tier), then the random cases
+    forced = [_case(rng, force=f) for f in (FORCED + ([("dup_cross", "anti", "")] if CROSS_DUP else [])) * (2 if tier == "thorough" else 1)]
+    return forced + [_case(rng, big=(k % 4 == 0)) for k in range(n)]
 
 
 def corpus():
     import random
     rng = random.Random(44)
     c = _case(rng)
-    while not (c["in"]["anti_f"] and "-" not in c["tag"].split("-", 2)[-1:] and len(c["in"]["tgt_f"]) > 6):
+    while not (c["in"]["anti_f"] and c["in"]["bad"] is None and len(c["in"]["tgt_f"]) > 6):
         c = _case(rng)
     # finding D: shuffled sample, empty antitargets, a correction on
     c["in"]["anti_f"] = []
     rng.shuffle(c["in"]["tgt_f"])
-    c["in"].update(do_gc=False, do_edge=True, do_rmask=False, shuffled=True, cli=False)
+    c["in"].update(do_gc=False, do_edge=True, do_rmask=False, shuffled=True, cli=False, par=None, swf=None, rep={})
     c["tag"] = "corpus-D"
     return [c]
 
 
-def _cna(rows, cols):
+def _cna(rows, cols, sub=None):
+    """a CopyNumArray of the rows.  With `sub` (a seed) the same table is obtained as a filtered SUBSET of a larger
+    one (junk rows interleaved, then masked out), so that its pandas index labels are not 0..n-1 -- as for any table
+    a caller has filtered before (one sex chromosome dropped, targets selected by gene ...)"""
     from cnvlib.cnary import CopyNumArray as CNA
-    return CNA.from_rows([tuple(r) for r in rows], columns=cols, meta_dict={"sample_id": "s"})
+    rows = [tuple(r) for r in rows]
+    if sub is None or not rows:
+        return CNA.from_rows(rows, columns=cols, meta_dict={"sample_id": "s"})
+    import random
+    import numpy as np
+    rng = random.Random(sub)
+    big, mask = [], []
+    for r in rows:
+        for _ in range(rng.choice([0, 1, 1, 2])):
+            j = rng.choice(rows)
+            big.append((j[0], j[1] + rng.randint(1, 50), j[2] + rng.randint(51, 90)) + tuple(j[3:]))
+            mask.append(False)
+        big.append(r)
+        mask.append(True)
+    if all(mask):
+        big.insert(0, (rows[0][0], rows[0][1] + 1, rows[0][2] + 2) + tuple(rows[0][3:]))
+        mask.insert(0, False)
+    return CNA.from_rows(big, columns=cols, meta_dict={"sample_id": "s"})[np.array(mask)]
 
 
-def _ref(rows):
+def _samp(rows, rep, sub=None):
+    """a coverage table; `samp_gc`: with the extra gc column of Picard-derived tables"""
+    if rep.get("samp_gc"):
+        return _cna([list(r) + [0.25 + ((r[1] * 7 + r[2]) % 50) / 100] for r in rows], SC + ["gc"], sub)
+    return _cna(rows, SC, sub)
+
+
+def _ref(rows, rep=None, sub=None):
+    rep = rep or {}
     cols = ["chromosome", "start", "end", "gene", "log2", "depth", "gc", "rmask", "spread"]
-    ref = _cna(rows, cols)
+    if rep.get("ref_extra"):
+        # what `reference --cluster` adds; `fix` without --cluster must not look at them
+        rows = [list(r) + [r[4] + 0.5 - (k % 3) * 0.4, 0.01 + (k % 7) * 0.3] for k, r in enumerate(rows)]
+        cols = cols + ["log2_1", "spread_1"]
+    ref = _cna(rows, cols, sub)
     drop = [c for c, idx in (("gc", 6), ("rmask", 7)) if rows and rows[0][idx] is None]
-    if drop:
-        ref = ref.keep_columns([c for c in cols if c not in drop])
+    if rep.get("ref_nodepth"):
+        drop.append("depth")
+    keep = [c for c in cols if c not in drop]
+    if rep.get("ref_cols"):
+        import random
+        tail = keep[4:]
+        random.Random(rep["ref_cols"]).shuffle(tail)
+        keep = keep[:4] + tail
+    if drop or rep.get("ref_cols"):
+        ref = ref.keep_columns(keep)
     return ref
 
 
@@ -130,16 +265,38 @@ def _fix_cli(i, tgt, anti, ref):
     from cnvlib import commands
     from cnvlib.cmdutil import read_cna
     from skgenome import tabio
+    rep = i.get("rep") or {}
     d = tempfile.mkdtemp(prefix="c04cli", dir="/var/tmp")
+    cwd = os.getcwd()
     try:
         ft, fa, fr, fo = (os.path.join(d, n) for n in ("s.targetcoverage.cnn", "s.antitargetcoverage.cnn", "ref.cnn", "s.cnr"))
-        tabio.write(_cna(tgt, SC), ft)
-        tabio.write(_cna(anti, SC), fa)
-        tabio.write(_ref(ref), fr)
-        argv = ["fix", ft, fa, fr, "-o", fo]
+        tabio.write(_samp(tgt, rep), ft)
+        if not anti and rep.get("cli_empty_file"):
+            # what `coverage` leaves for an empty antitarget BED (amplicon / WGS designs); any empty file will do,
+            # whatever sample its name suggests
+            fa = os.path.join(d, "none.antitargetcoverage.cnn")
+            open(fa, "w").close()
+        else:
+            tabio.write(_samp(anti, rep), fa)
+        tabio.write(_ref(ref, rep), fr)
+        argv = ["fix", ft, fa, fr]
+        if rep.get("cli_sid"):
+            argv += ["-i", "tumor7"]
+        if rep.get("cli_no_o"):
+            # default output name: <sample id>.cnr in the working directory
+            wd = os.path.join(d, "wd")
+            os.mkdir(wd)
+            os.chdir(wd)
+            fo = os.path.join(wd, ("tumor7" if rep.get("cli_sid") else "s") + ".cnr")
+        else:
+            argv += ["-o", fo]
         argv += [] if i["do_gc"] else ["--no-gc"]
         argv += [] if i["do_edge"] else ["--no-edge"]
         argv += [] if i["do_rmask"] else ["--no-rmask"]
+        if i.get("par"):
+            argv += ["--diploid-parx-genome", i["par"]]
+        if i.get("swf") is not None:
+            argv += ["--smoothing-window-fraction", repr(i["swf"])]
         # the .cnr is written with 6 significant digits (C08's subject): take the table the command hands to the
         # writer, and check separately that the file read back agrees with it to that precision
         captured = []
@@ -170,7 +327,31 @@ def _fix_cli(i, tgt, anti, ref):
             raise AssertionError("the written .cnr does not read back as the table fix computed")
         return out
     finally:
+        os.chdir(cwd)
         shutil.rmtree(d, ignore_errors=True)
+
+
+def _fix_api(i, tgt, anti, ref):
+    from cnvlib import fix
+    rep = i.get("rep") or {}
+    sub = rep.get("sub")
+    t, a, r = _samp(tgt, rep, sub), _samp(anti, rep, sub and sub + 1), _ref(ref, rep, sub and sub + 2)
+    par, swf = i.get("par"), i.get("swf")
+    style = rep.get("call", "kw")
+    if style == "pos":  # as commands._cmd_fix calls it
+        return fix.do_fix(t, a, r, par, i["do_gc"], i["do_edge"], i["do_rmask"], False, swf)
+    kw = {}
+    if style != "implicit" or not i["do_gc"]:
+        kw["do_gc"] = i["do_gc"]
+    if style != "implicit" or not i["do_edge"]:
+        kw["do_edge"] = i["do_edge"]
+    if style != "implicit" or not i["do_rmask"]:
+        kw["do_rmask"] = i["do_rmask"]
+    if style != "implicit" or par is not None:
+        kw["diploid_parx_genome"] = par
+    if style != "implicit" or swf is not None:
+        kw["smoothing_window_fraction"] = swf
+    return fix.do_fix(t, a, r, **kw)
 
 
 def _run(i, tgt, anti, ref, record=None):
@@ -178,8 +359,7 @@ def _run(i, tgt, anti, ref, record=None):
     if i.get("cli"):
         do = lambda: _fix_cli(i, tgt, anti, ref)
     else:
-        do = lambda: fix.do_fix(_cna(tgt, SC), _cna(anti, SC), _ref(ref), do_gc=i["do_gc"], do_edge=i["do_edge"],
-                                do_rmask=i["do_rmask"])
+        do = lambda: _fix_api(i, tgt, anti, ref)
     if record is not None:
         # the two residual spreads are third-party numerics (biweight midvariance, C19): capture the values
         # apply_weights actually obtains (the estimator switches to a MAD fallback on exactly symmetric data,
@@ -227,9 +407,11 @@ def run_impl(case):
     def perm_wing(n):
         if n == 0:
             return [], 1
+        if n == 1:  # rolling_median hands a single value back unchanged
+            return [0], 1
         np.random.seed(0xA5EED)
         p = [int(x) for x in np.random.permutation(np.arange(n))]
-        fr = max(0.01, n ** -0.5)
+        fr = i["swf"] if i.get("swf") is not None else max(0.01, n ** -0.5)
         try:
             return p, int(smoothing._width2wing(fr, np.zeros(n)))
         except ValueError:  # n == 1: the fraction is 1.0, which rolling_median refuses
@@ -303,8 +485,12 @@ def _rows_json(rows, n):
 
 def to_line(case, impl):
     i = case["in"]
-    base = {"tgt": _rows_json(i["tgt_f"], 6), "anti": _rows_json(i["anti_f"], 6), "ref": _rows_json(i["ref_f"], 9),
-            "do_gc": i["do_gc"], "do_edge": i["do_edge"], "do_rmask": i["do_rmask"], "par": i["par"]}
+    ref = i["ref_f"]
+    if (i.get("rep") or {}).get("ref_nodepth"):
+        # the reference has no depth column: no bin is dropped for depth 0 (the model's rows carry a depth)
+        ref = [r[:5] + [1.0] + r[6:] for r in ref]
+    base = {"tgt": _rows_json(i["tgt_f"], 6), "anti": _rows_json(i["anti_f"], 6), "ref": _rows_json(ref, 9),
+            "do_gc": i["do_gc"], "do_edge": i["do_edge"], "do_rmask": i["do_rmask"], "par": i.get("par")}
     if isinstance(impl, dict) and ("__error__" in impl or impl.get("nan")):
         base.update(permT=[], wingT=1, permA=[], wingA=1, varT="0", varA="0", sqrt=[])
         return {"op": "fix", "in": base}
@@ -328,6 +514,40 @@ def classify_single_bin_class(case, impl, resp):
             and "(got 1.0)" in impl.get("msg", ""))
 
 
+def _centred_before_shift(case, rows):
+    """The driver's `output_centered` re-selects the bins with usable coverage on the OUTPUT values (log2 >= -15 and
+    depth > 0); `center_all(skip_low=True)` selects them before it shifts.  When the shift is large (a class that is
+    mostly zero-coverage bins drags its few live bins ~20 units away) a selected bin can cross the -15 cut-off with
+    the shift, and the two selections differ although the output is centred exactly as the property says (same
+    knife edge as C15, DESIGN 9.4).  True iff the output is centred (median of the autosomal chromosome medians
+    within 1e-9 of 0) on the covered bins at or above SOME cut-off, i.e. for a selection made before some shift."""
+    import re
+    import statistics
+    from cnvlib import params
+    i = case["in"]
+    depth = {(r[0], r[1], r[2]): r[5] for r in i["tgt_f"] + i["anti_f"]}
+    live = [(r[0], r[1], r[2], float(Fraction(r[4]))) for r in rows if depth.get((r[0], r[1], r[2]), 1) > 0]
+    if not live:
+        return False
+    xlab = "chrX" if rows[0][0].startswith("chr") else "X"
+    par = params.PSEUDO_AUTSOMAL_REGIONS[i["par"].lower()] if i.get("par") else None
+
+    def centre(sel):
+        auto = [b for b in sel if re.match(r"(chr)?\d+$", b[0])]
+        if auto:
+            sel = [b for b in sel if re.match(r"(chr)?\d+$", b[0]) or
+                   (par and b[0] == xlab and any(b[1] >= lo and b[2] <= hi for lo, hi in (par["PAR1X"], par["PAR2X"])))]
+        if not sel:
+            return None
+        return statistics.median(statistics.median(b[3] for b in sel if b[0] == c) for c in {b[0] for b in sel})
+    for v in sorted({b[3] for b in live}):
+        for sel in ([b for b in live if b[3] >= v], [b for b in live if b[3] > v]):
+            c = centre(sel)
+            if c is not None and abs(c) <= 1e-9:
+                return True
+    return False
+
+
 def judge(case, impl, resp):
     if isinstance(impl, dict) and impl.get("nan"):
         # a class of emitted bins with fewer than two bins that have any coverage has no residual spread to
@@ -339,6 +559,13 @@ def judge(case, impl, resp):
         return [], ["model error: " + resp["error"]], None
     out = resp["out"]
     model_err = isinstance(out, dict) and "error_kind" in out
+    i = case["in"]
+    if not model_err and {(r[0], r[1], r[2]) for r in i["tgt_f"]} & {(r[0], r[1], r[2]) for r in i["anti_f"]}:
+        # coordinates duplicated ACROSS the two sample tables: the model checks each table on its own (as
+        # match_ref_to_sample does); the property's refusal is demanded here from the case itself
+        if isinstance(impl, dict) and impl.get("__error__") == "ValueError" and "uplicated" in impl.get("msg", ""):
+            return [], [], None
+        return ["fix_rejects_missing_or_duplicated"], [], None
     if isinstance(impl, dict) and "__error__" in impl:
         if model_err and impl["__error__"] == "ValueError" and "width must be" not in impl.get("msg", ""):
             return [], [], None  # refuses a missing / duplicated bin, as the property demands
@@ -354,6 +581,8 @@ def judge(case, impl, resp):
         spec.append("depth_scale_invariant_with_null_bins")
     dis = []
     rows = impl["rows"]
+    if "output_centered" in spec and _centred_before_shift(case, rows):
+        spec.remove("output_centered")
     if "edge_key_dev" in resp and Fraction(resp["edge_key_dev"]) > Fraction(1, 10 ** 9):
         dis.append(f"edge-bias keys: real doubles deviate from the exact formula by {float(Fraction(resp['edge_key_dev']))}")
     if len(out) != len(rows):
@@ -370,6 +599,10 @@ def judge(case, impl, resp):
                     break
             if dis:
                 break
+    if dis and spec == ["depth_scale_invariant_with_null_bins"] and classify_null_bins(case, impl, resp):
+        # the open finding W must not hide a model / implementation disagreement on the same case (the check only
+        # counts disagreements of cases without a failing clause); W itself shows on the cases that agree
+        spec = []
     return spec, dis, None
 
 
